@@ -202,7 +202,8 @@ impl Gatekeeper {
     ) -> Result<u32, NotEnoughSlots> {
         // For updates, the difference between the existing appointment size and the update is computed.
         let mut registered_users = self.registered_users.lock().unwrap();
-        let user_info = registered_users.get_mut(&user_id).unwrap();
+        // The user may have been deleted (subscription outdated) since it was authenticated
+        let user_info = registered_users.get_mut(&user_id).ok_or(NotEnoughSlots)?;
         // An appointment takes at least one slot, no matter how small (or empty) its blob is.
         let used_slots = self
             .dbm
